@@ -14,8 +14,6 @@ func joinKey(jr *joinRoles, fn *ssa.Function, suffix string) string {
 	return k
 }
 
-
-
 // J3+J4: buffer typestate over the whole goroutine.
 func checkJ34(c *Ctx, jr *joinRoles) {
 	p := jr.p
@@ -100,22 +98,18 @@ func checkJ34(c *Ctx, jr *joinRoles) {
 
 func edgesOf(in ssa.Instruction) []CondEdge { return InstrDomEdges(in) }
 
-
-
-
-
 func init() {
 	register(&Property{
-		ID:  "C03",
-		Run: func(c *Ctx) { runJoinProperty(c, "C03") },
+		ID:          "C03",
+		Run:         func(c *Ctx) { runJoinProperty(c, "C03") },
 		Explanation: "Join/unite integrity as an invariant preserved by every operation: J1 every value received with ok=true is handed to the accept function exactly once and nothing is handed over after close; J2 the accept function ingests the whole value exactly once (unite: or forwards the whole slice), never both, never a part; J3 every payload is the whole buffer or a whole input slice; J4 buffer typestate over the goroutine: send(B) is followed by reset before any ingest or second send and no reset happens without a send (v1: except after a stop clause); J5 the buffer is sent only when non-empty, a slice is forwarded alone only when len >= JoinSize, the constructor rejects JoinSize 0; J6 after an ingest the function flushes or leaves under len(B) < JoinSize (length read after the ingest); J7 unite fit facts: ingest only under len(item)+len(B) <= JoinSize or after a flush with len(item) < JoinSize, forward only big slices right after a flush; J8 the loop functions defer the flush first and the entry's defer closes the output afterwards.",
-		NotDecided: []string{"timing is irrelevant to this property by construction"},
+		NotDecided:  []string{"timing is irrelevant to this property by construction"},
 	})
 	register(&Property{
-		ID:  "C11",
-		Run: func(c *Ctx) { runJoinProperty(c, "C11") },
+		ID:          "C11",
+		Run:         func(c *Ctx) { runJoinProperty(c, "C11") },
 		Explanation: "Unite never splits an input slice: J2 (whole-slice ingest or whole forward, exactly one of them), J3 (payloads are whole), J4 (nothing is ingested between send and reset), J5 (no empty output; forward only for len >= JoinSize), J7 (flush before an ingest that would not fit; oversize slices are forwarded alone right after a flush). Empty input slices: append(B, empty...) is a no-op and J5 prevents an empty send.",
-		NotDecided: []string{},
+		NotDecided:  []string{},
 	})
 }
 
